@@ -16,6 +16,8 @@ struct BtAccess;
 #define TLX_BTREE_FRIENDS friend struct ::BtAccess
 
 #include <algorithm>
+#include <csignal>
+#include <unistd.h>
 #include <cstdio>
 #include <cstdlib>
 #include <cstring>
@@ -37,7 +39,22 @@ struct BtAccess;
 
 #include "ledger.hpp"
 
-using verif::Tracked;
+// Heap-owning, lifetime-tracked element whose MOVED-FROM state is visible (like a std::string that is emptied
+// by a move): a move leaves -7777 behind, so an element that was moved out of a node slot instead of copied
+// shows up as a wrong key / datum.  Copies behave like verif::Tracked.
+struct HKey {
+    verif::Tracked t;
+    HKey() : t() {}
+    explicit HKey(int x) : t(x) {}
+    HKey(const HKey& o) : t(o.t) {}
+    HKey(HKey&& o) noexcept : t(o.t) { o.t = verif::Tracked(-7777); }
+    HKey& operator=(const HKey& o) { t = o.t; return *this; }
+    HKey& operator=(HKey&& o) noexcept { if (this != &o) { t = o.t; o.t = verif::Tracked(-7777); } return *this; }
+    int get() const { return t.get(); }
+    friend bool operator<(const HKey& a, const HKey& b) { return a.get() < b.get(); }
+    friend bool operator==(const HKey& a, const HKey& b) { return a.get() == b.get(); }
+};
+typedef HKey Tracked;
 
 static inline int kval(int x) { return x; }
 static inline int kval(const Tracked& t) { return t.get(); }
@@ -137,7 +154,22 @@ struct setK {
     typedef tlx::btree_set<typename B::Key, typename B::Cmp, Tr<L, I, BIN>, ArenaAlloc<typename B::Key>> C;
 };
 template <bool GT>
-struct msetB {    // multiset<int>: trivial element type
+struct msetB {    // multiset<HKey>: heap-owning keys with a visible moved-from state, duplicates
+    typedef Tracked Key;
+    typedef DirCmp<Key, GT> Cmp;
+    typedef std::multiset<Key, Cmp> S;
+    static const bool dup = true, ismap = false;
+    static Key mk(int k, int) { return Key(k); }
+    template <class VT> static int kof(const VT& v) { return kval(v); }
+    template <class VT> static int dof(const VT&) { return 0; }
+};
+template <bool GT, int L, int I, bool BIN>
+struct msetK {
+    typedef msetB<GT> B;
+    typedef tlx::btree_multiset<typename B::Key, typename B::Cmp, Tr<L, I, BIN>, ArenaAlloc<typename B::Key>> C;
+};
+template <bool GT>
+struct imsB {     // multiset<int>: trivial element type (also used for the huge node capacities)
     typedef int Key;
     typedef DirCmp<Key, GT> Cmp;
     typedef std::multiset<Key, Cmp> S;
@@ -147,8 +179,8 @@ struct msetB {    // multiset<int>: trivial element type
     template <class VT> static int dof(const VT&) { return 0; }
 };
 template <bool GT, int L, int I, bool BIN>
-struct msetK {
-    typedef msetB<GT> B;
+struct imsK {
+    typedef imsB<GT> B;
     typedef tlx::btree_multiset<typename B::Key, typename B::Cmp, Tr<L, I, BIN>, ArenaAlloc<typename B::Key>> C;
 };
 // "dms": btree_multiset<int> with the DEFAULT Compare (std::less) and the DEFAULT traits
@@ -297,6 +329,9 @@ template <class KD, class X> struct Ops {
     }
     static typename KD::Key mkkey(int k) { return keyof(KD::mk(k, 0)); }
     static typename KD::Key keyof(const typename KD::Key& k) { return k; }
+    // reference to the key INSIDE a stored value (argument-aliasing call modes)
+    static const typename KD::Key& keyref(const typename KD::Key& k) { return k; }
+    template <class A, class B> static const typename KD::Key& keyref(const std::pair<A, B>& p) { return p.first; }
     template <class A, class B> static typename KD::Key keyof(const std::pair<A, B>& p) { return p.first; }
 
     // rank of an iterator by identity (walk from begin()); -1 = not an iterator of this container
@@ -367,6 +402,25 @@ template <class KD, class X> struct Ops {
         } else {
             return insert_hint(x, k, d, j);
         }
+    }
+    // ARGUMENT ALIASING: the value / key handed to the member is a reference to an entry stored in the same
+    // container (x.insert(*it), x.insert(hint, *it), x.insert2(it->first, it->second), x[it->first]); the call
+    // must behave as if it had been given a copy of the argument's value at call time
+    static std::string insert_alias(X& x, const std::string& base, It a, int k, int d, long j) {
+        const typename X::value_type& av = *a;
+        size_t before = x.size();
+        It it;
+        if (base == "Ih") it = x.insert(hint_of(x, k, j), av);
+        else if (base == "I2") {
+            if constexpr (has_insert2<X>::value) it = first_of(x.insert2(av.first, av.second));
+            else it = ins(x, av, std::integral_constant<bool, KD::dup>()).first;
+        }
+        else if (base == "Ib") {
+            if constexpr (KD::ismap && !KD::dup) { int seen = kval(x[keyref(av)]); it = x.find(mkkey(k)); if (it == x.end() || KD::dof(*it) != seen) return "I!bracket"; }
+            else it = ins(x, av, std::integral_constant<bool, KD::dup>()).first;
+        }
+        else it = ins(x, av, std::integral_constant<bool, KD::dup>()).first;
+        return describe_insert(x, it, x.size() == before + 1, k, d);
     }
     // operator[] (unique maps): creates a default entry for an absent key, which is then assigned
     static std::string insert_bracket(X& x, int k, int d) {
@@ -555,6 +609,29 @@ static std::string do_op(std::unique_ptr<X>* c, const Op& o) {
     const std::string& n = o.name; const std::vector<long>& f = o.f;
     X& x = *c[f[0]];
     const X& cx = x;
+    if (n.size() > 1 && n[n.size() - 1] == 'a') {
+        // argument-aliasing mode of the base operation: the key / value argument is a reference to the j-th
+        // stored entry with key f[1] and data f[2] (none stored: the plain call)
+        const std::string base = n.substr(0, n.size() - 1);
+        const int k = f[1], d = KD::ismap ? f[2] : 0;
+        typename X::iterator a;
+        if (!O::locate(x, k, d, f[3], a)) {
+            Op plain = o; plain.name = base;
+            if (base == "Ih" || base == "Ih2") plain.f[3] = f[3];
+            return do_op<KD, X>(c, plain);
+        }
+        const typename X::key_type& ak = O::keyref(*a);
+        if (base == "I" || base == "Ih" || base == "I2" || base == "Ib") return O::insert_alias(x, base, a, k, d, f[3]);
+        if (base == "E1") return api_erase_one(x, ak, 0) ? "E1" : "E0";
+        if (base == "EK") return "K" + std::to_string(x.erase(ak));
+        if (base == "F") return "F" + O::pos(x, x.find(ak));
+        if (base == "X") return api_exists(x, ak, 0) ? "X1" : "X0";
+        if (base == "C") return "C" + std::to_string(cx.count(ak));
+        if (base == "L") return "L" + O::pos(x, x.lower_bound(ak));
+        if (base == "U") return "U" + O::cpos(cx, cx.upper_bound(ak));
+        if (base == "R") { auto p = x.equal_range(ak); return "R" + O::pos(x, p.first) + "-" + O::pos(x, p.second); }
+        return "?";
+    }
     if (n == "I") return O::insert(x, f[1], KD::ismap ? f[2] : 0);
     if (n == "Ih") return O::insert_hint(x, f[1], KD::ismap ? f[2] : 0, f[3]);
     if (n == "I2") return O::insert2(x, f[1], KD::ismap ? f[2] : 0);
@@ -618,6 +695,7 @@ static std::string do_op(std::unique_ptr<X>* c, const Op& o) {
 }
 
 static bool mutating(const std::string& n) {
+    if (n == "Ia" || n == "Iha" || n == "I2a" || n == "Iba" || n == "E1a" || n == "EKa") return true;
     return n == "I" || n == "Ih" || n == "I2" || n == "Ih2" || n == "Ib" || n == "IR" || n == "CR" || n == "NC" || n == "SWs" || n == "SWt" || n == "E1" || n == "EK" || n == "EI" || n == "CL" || n == "AS" || n == "CC" || n == "SW" || n == "B";
 }
 
@@ -646,7 +724,7 @@ static std::string run_case(const std::vector<Op>& ops, std::string* dumps) {
             const Op& o = ops[k];
             long a0 = A.allocs, f0 = A.frees;
             std::vector<int> before_run;
-            if (KD::dup && KD::ismap && o.name == "E1")
+            if (KD::dup && KD::ismap && (o.name == "E1" || o.name == "E1a"))
                 for (auto y = c[o.f[0]]->begin(); y != c[o.f[0]]->end(); ++y) if (Ops<KD, C>::equiv(*c[o.f[0]], KD::kof(*y), o.f[1])) before_run.push_back(KD::dof(*y));
             std::string ri = do_op<KD, C>(c, o);
             long da = A.allocs - a0, df = A.frees - f0;
@@ -659,7 +737,7 @@ static std::string run_case(const std::vector<Op>& ops, std::string* dumps) {
                 for (int v = 0; v < 3; ++v) if (cmp_dir(c[v]->key_comp(), 0) != dir[v]) { ri += "!key_comp-state-of-variable-" + std::to_string(v); break; }
             }
             std::string rs;
-            if (KD::dup && KD::ismap && o.name == "E1") {
+            if (KD::dup && KD::ismap && (o.name == "E1" || o.name == "E1a")) {
                 // which of several equal-key entries erase_one removes is left open by the property:
                 // the reference container drops the entry the tlx container dropped
                 std::multiset<int> now; for (auto y = c[o.f[0]]->begin(); y != c[o.f[0]]->end(); ++y) if (Ops<KD, C>::equiv(*c[o.f[0]], KD::kof(*y), o.f[1])) now.insert(KD::dof(*y));
@@ -715,7 +793,16 @@ struct Registrar {
 }
 
 #ifdef HARNESS_MAIN
+// per-case watchdog: a search that does not terminate is reported instead of hanging the run
+static volatile long g_case_no = -1;
+static void on_alarm(int) {
+    char b[96]; int len = snprintf(b, sizeof b, "\nWATCHDOG: case %ld did not finish within 30 s\n", g_case_no);
+    if (write(1, b, len) < 0) {}
+    _exit(3);
+}
+
 int main(int argc, char** argv) {
+    signal(SIGALRM, on_alarm);
     if (argc < 2) { fprintf(stderr, "usage: %s cases.txt [dumps.txt]\n", argv[0]); return 2; }
     tlx::set_die_with_exception(true);
     std::ifstream in(argv[1]);
@@ -730,7 +817,9 @@ int main(int argc, char** argv) {
         auto it = registry().find(cfg);
         std::string dumps;
         if (it == registry().end()) { std::cout << "NOCONFIG " << cfg << std::endl; if (dout.is_open()) dout << std::endl; continue; }
+        ++g_case_no; alarm(30);
         std::cout << it->second(ops, dout.is_open() ? &dumps : nullptr) << std::endl;
+        alarm(0);
         if (dout.is_open()) dout << dumps << std::endl;
     }
     return 0;
